@@ -249,6 +249,14 @@ func cmdCheck(args []string) int {
 		quickSec, slowSec = 60, 60
 	}
 	tGen := time.Since(t0).Seconds()
+	// obligations recorded as known findings are expected to fail: no
+	// extended second attempt for them
+	noRetry = map[string]bool{}
+	for _, o := range obls {
+		if known.match(*prop, o.Name) != "" {
+			noRetry[o.Name] = true
+		}
+	}
 	res := solveAll(obls, work, quickSec, slowSec, thorough, 16)
 	tSolve := time.Since(t0).Seconds() - tGen
 	fmt.Fprintf(os.Stderr, "gowp: load+generate %.1fs, render+solve %.1fs\n", tGen, tSolve)
